@@ -471,3 +471,88 @@ def c13_variant(base):
 CONTRACTS = [SyncCall(), SyncMethod(), AsyncCall(), AsyncMethod(),
              _ka(SyncCall, "KASync"), _ka(SyncMethod, "KASyncMethod"), _ka(AsyncCall, "KAAsync"),
              _ka(AsyncMethod, "KAAsyncMethod")]
+
+
+class CacheFactory(Contract):
+    """cache._wrap: limit / expiration reach the right cache class; async functions get the async cache."""
+    file, func, name = FILE, "cache._wrap", "C12/caching:cache._wrap"
+    props = ("C12", "C13")
+
+    def instantiate(self, it, info, cargs, node):
+        if info.name in ("_SyncCache", "_AsyncCache"):
+            self.made.append((info.name, cargs))
+            return it.st.alloc(info.cid)
+        return None
+
+    def setup(self, it, env):
+        st = it.st
+        self.made = []
+        self.is_async = st.fork("function-kind", [("sync", True), ("async", True)]) == 1
+        self.fn = st.reg_fun(OracleV("function", is_async=self.is_async))
+        self.limit, self.expiration = V.VInt(st.fresh("limit", I)), st.fresh_val("expiration")
+        env.vars.update(limit=self.limit, expiration=self.expiration)
+        return None, CallArgs([self.fn])
+
+    def on_return(self, it, ret):
+        st = it.st
+        ok = len(self.made) == 1
+        st.check("P6:exactly-one-cache-object-is-built", z3.BoolVal(ok))
+        if not ok:
+            return
+        name, ca = self.made[0]
+        st.check("P6:async-functions-get-the-task-cache-sync-functions-the-value-cache",
+                 z3.BoolVal(name == ("_AsyncCache" if self.is_async else "_SyncCache")))
+        st.check("P6:function-limit-and-expiration-are-passed-unchanged",
+                 z3.And(z3.BoolVal(len(ca.pos) == 1) if len(ca.pos) != 1 else ca.pos[0] == self.fn,
+                        ca.kw.get("limit") == self.limit, ca.kw.get("expiration") == self.expiration))
+
+    def on_raise(self, it, exc):
+        it.st.check("P6:building-the-cache-never-raises", z3.BoolVal(False))
+
+
+class CacheGet(_CacheBase):
+    """__get__: access through an instance binds that instance to the method path."""
+    file, func, name = FILE, "_SyncCache.__get__", "C12/caching:_SyncCache.__get__"
+
+    def setup(self, it, env):
+        st = it.st
+        self.build(it)
+        self.instance = st.fresh_val("instance")
+        st.assume(z3.Or(V.is_none(self.instance), z3.And(V.is_ref(self.instance), V.addr(self.instance) >= 0,
+                                                           V.addr(self.instance) < 1_000_000)))
+        self.owner = st.fresh_val("owner")
+        st.assume(z3.Or(V.is_none(self.owner), V.is_cls(self.owner)))
+        return method(it, self.info, self.obj, "__get__"), CallArgs([self.instance, self.owner])
+
+    def callee(self, it, fv):
+        if fv.qualname == "mimic_function":
+            def spec(it2, fv2, cargs, node):
+                self.mimicked = cargs
+                return cargs.kw.get("within", V.VNone)
+            return spec
+        return None
+
+    def on_return(self, it, ret):
+        st = it.st
+        bound = z3.And(z3.Not(V.is_none(self.instance)), z3.Not(V.is_none(self.owner)))
+        if it.kind(ret) == "ref" and st.class_id_of(ret) == it.ct.id("partial"):
+            pv = st.ghost.get("$partials", {}).get(str(st.simp(V.addr(ret))))
+            fv = st.fun_of(pv.func) if pv is not None else None
+            ok = pv is not None and isinstance(fv, FuncV) and fv.qualname.endswith("__method_call__") and \
+                fv.bound is not None and fv.bound.eq(self.obj) and len(pv.args) == 1 and pv.args[0].eq(self.instance)
+            st.check("P6:access-through-an-instance-binds-exactly-that-instance-to-the-method-path",
+                     z3.And(bound, z3.BoolVal(bool(ok))))
+        else:
+            st.check("P6:access-through-the-class-returns-the-cache-itself", z3.And(z3.Not(bound), ret == self.obj))
+
+    def on_raise(self, it, exc):
+        it.st.check("P6:attribute-access-never-raises", z3.BoolVal(False))
+
+
+class AsyncCacheGet(CacheGet):
+    file, func, name = FILE, "_AsyncCache.__get__", "C12/caching:_AsyncCache.__get__"
+    cls = "_AsyncCache"
+    is_async = True
+
+
+CONTRACTS = CONTRACTS + [CacheFactory(), CacheGet(), AsyncCacheGet()]
